@@ -812,9 +812,7 @@ class GetNamesToTypes(_JG):
     def requires(self, c):
         return _JG.requires(self, c) + wfg_required(c.old.self)
 
-    # The two exceptions are characterised EXACTLY (both directions); that they can happen at all is the finding recorded by the lemma ConversionIsTotal below.
-    raises = {"KeyError": lambda c: some_property(props(c.old.self), lambda n: z3.Not(node_has_type(n))),
-              "TypeError": lambda c: some_property(props(c.old.self), lambda n: z3.And(node_has_type(n), z3.Not(type_is_hashable(node_type(n)))))}
+    # TOTAL (no `raises`): since 4723ed2 a property without type keyword or with several types converts to None; any exception is a failed obligation.
 
     def ensures(self, c):
         g0, g1, r = c.old.self, c.new.self, c.result
@@ -832,7 +830,6 @@ def _gntt_inv(c, k):
     pos = c.seq.pos
     return [("names", z3.ForAll([x], r.has(x) == z3.And(props(g0).has(x), pos[x] < k))),
             ("types", z3.ForAll([x], z3.Implies(r.has(x), r.get(x) == py_type_of(props(g0).get(x))))),
-            ("converted-so-far:one-type-keyword", z3.ForAll([x], z3.Implies(r.has(x), z3.And(node_has_type(props(g0).get(x)), type_is_hashable(node_type(props(g0).get(x))))))),
             ("size", r.n == k)]
 
 
@@ -858,7 +855,7 @@ class ToSimpleJson(Contract):
     self_class = JG
     returns = TObj(SG)
     modifies = ("self", BUILDER)
-    raises = GetNamesToTypes.raises  # (propagated from _get_names_to_types, see ConversionIsTotal)
+    # (total: no `raises`)
 
     def requires(self, c):
         g = c.old.self
@@ -903,22 +900,6 @@ class WarnForItems(_Logging):
 @register
 class DefaultsCopyAlias(G.DFCopy):
     targets = (G.DF + ".copy",)
-
-
-@register
-class ConversionIsTotal(Contract):
-    """to_simple_grammar / _get_names_to_types convert EVERY JSON grammar ("the type is set to None" when no unique Python type exists): the exact exception
-    conditions of GetNamesToTypes never hold, i.e. every property schema has one `type` keyword whose value is a string.  FAILS on the pinned tree (known finding):
-    a property without type ({} from update_from_types({name: None}), "anyOf" merges) raises KeyError, a merged `type` list raises TypeError."""
-
-    lemma = True
-    targets = ()
-    prop = ("C15",)
-
-    def lemmas(self):
-        n = z3.Const("node!cit", J.ValS)
-        return [("conversion:no-KeyError-for-a-property-without-type", z3.ForAll([n], node_has_type(n))),
-                ("conversion:no-TypeError-for-a-property-with-several-types", z3.ForAll([n], z3.Implies(node_has_type(n), type_is_hashable(node_type(n)))))]
 
 
 def _tables():
